@@ -248,33 +248,27 @@ func runC10(c c10Case) (*vh.Violation, vh.Outcome) {
 			}
 			reobs = true
 			t := txs[o.A%len(txs)]
-			n0 := countLog("re-observed message publication transaction") + countLog("ignoring re-observed message publication transaction") + countLog("failed to process observation request") + countLog("failed to get block number")
-			rcpt0 := 0
-			sim.mu.Lock()
-			for _, s := range sim.served {
-				if s.method == "eth_getTransactionReceipt" && s.arg == t.Hash.Hex() {
-					rcpt0++
-				}
-			}
-			sim.mu.Unlock()
 			reqC <- &gossipv1.ObservationRequest{ChainId: uint32(chain), TxHash: t.Hash.Bytes()}
-			ok := waitFor(3*time.Second, func() bool {
-				n := countLog("re-observed message publication transaction") + countLog("ignoring re-observed message publication transaction") + countLog("failed to process observation request") + countLog("failed to get block number")
-				if n > n0 {
-					return true
-				}
-				// a transaction without matching logs produces no log line: its receipt having been served (and a moment) is enough
-				r := 0
-				sim.mu.Lock()
-				for _, s := range sim.served {
-					if s.method == "eth_getTransactionReceipt" && s.arg == t.Hash.Hex() {
-						r++
+			// the re-observation goroutine handles requests one after the other: once a later request for a transaction
+			// that does not exist has reached its receipt lookup, the request above has been handled completely
+			done := false
+			for b := 0; b < 5 && !done; b++ {
+				bh := crypto.Keccak256Hash([]byte(fmt.Sprintf("barrier-%d-%d", i, b)))
+				reqC <- &gossipv1.ObservationRequest{ChainId: uint32(chain), TxHash: bh.Bytes()}
+				f0 := countLog("failed to get block number")
+				waitFor(3*time.Second, func() bool {
+					sim.mu.Lock()
+					defer sim.mu.Unlock()
+					for k := len(sim.served) - 1; k >= 0 && k > len(sim.served)-400; k-- {
+						if sim.served[k].method == "eth_getTransactionReceipt" && sim.served[k].arg == bh.Hex() {
+							done = true
+							return true
+						}
 					}
-				}
-				sim.mu.Unlock()
-				return r > rcpt0 && len(reqC) == 0
-			})
-			if !ok {
+					return len(reqC) == 0 && countLog("failed to get block number") > f0
+				})
+			}
+			if !done {
 				return inconclusive("reobserve-not-handled")
 			}
 			time.Sleep(3 * time.Millisecond)
